@@ -492,3 +492,12 @@ def _ray_line():
 
 spec("Inter", "ray_line", pp("p0", "p1") + ["lx", "px", "py"], None,
      "Line(p0,p1).intersections(ray) for the horizontal ray from (lx, py) to (px, py) that windingNumberOfPoint builds: [t1, t2] or []")(_with_opaque_tOfPoint(_ray_line))
+
+
+def _has_loop():
+    r = cub().hasLoop
+    return [] if r is False else list(r)
+
+
+spec("Inter", "cubic_hasLoop", pp("p0", "p1", "p2", "p3"), None,
+     "CubicBezier.hasLoop: [] for False, else the two parameters (t1, t2) of the canonical-form test")(_has_loop)
